@@ -568,7 +568,7 @@ impl Sim for ServicesSim {
                 assumptions: vec![
                     "option vectors are restricted to those antctl's command line accepts (--first excludes --peer/--network-contacts-url/--count, --local excludes --network-contacts-url, evm-local needs the local feature)",
                     "the antnode binary at $ANTNODE_VERIF_BIN is built from the same working tree with --cfg maidsafe_safe_network_verif; its hook prints after the real Opt::parse(), rewards-address and EVM-network derivation and exits before anything is started",
-                    "upgrade environment: antctl passes --env if given, else the registry-wide environment_variables; auto_restart is hard-wired to false by cmd/node.rs::upgrade (mirrored)",
+                    "upgrade environment: antctl passes --env if given, else the registry-wide environment_variables; auto_restart is taken from the recorded NodeServiceData as cmd/node.rs::upgrade does (mirrored)",
                     "the glue mirrored as for C19",
                 ],
             },
